@@ -55,6 +55,15 @@ SCENARIOS.update({
     "close_without_code_vs_text": {"deflate": False, "threads": {"A": [["close", None, ""]], "B": [["send_text", P("B", 0)]],
                                                                   "C": [["close", 1000, "r" * 123]]}},
 })
+SRV_VIOLATION = (b"\x83\x01x" + rc.B(wire.TEXT, b"after the violation")).hex()     # reserved opcode 3, then a text frame
+SRV_BAD_UTF8 = rc.B(wire.TEXT, b"\xff\xfe").hex()
+SCENARIOS.update({
+    # the loop fails the connection (Close 1002 / 1007) for a protocol violation while the application closes / sends
+    "close_vs_protocol_error": {"deflate": False, "threads": {"A": [["close", 1000, "a"]]},
+                                "loop": {"bytes": SRV_VIOLATION, "idle_waits": 0}, "copts": {"ping_rate": 0}},
+    "close_and_send_vs_bad_utf8": {"deflate": False, "threads": {"A": [["close", 1000, "a"]], "B": [["send_text", P("B", 0)]]},
+                                   "loop": {"bytes": SRV_BAD_UTF8, "idle_waits": 0}, "copts": {"ping_rate": 0}},
+})
 BIG = rc.big_payload
 SCENARIOS.update({
     # frames of the other length classes (16-bit length form; beyond 64 KiB, larger than any buffer or chunk size in the
